@@ -754,7 +754,10 @@ def scenarios(
         energies = (1e5,)
     sessions = draw(session_lists(stations, max_per_station=max_per_station, window=window, energies=energies, batteries=battery_specs(noise=noise) if batteries is None else batteries, zero_energy=extras and sched_kind != "always_max"))
     last = max(s["departure"] for s in sessions)
-    recomputes = draw(st.lists(st.integers(0, last + 3), max_size=3))
+    bulk_add = draw(st.sampled_from([True, False, "mixed", "mixed"]))
+    # with events added partly singly and partly in one batch, more stand-alone recompute events
+    # make for more ways the two groups can interleave
+    recomputes = draw(st.lists(st.integers(0, last + 3), max_size=8 if bulk_add == "mixed" else 3))
     inert = draw(st.lists(st.integers(0, last + 2), max_size=2)) if extras and draw(st.integers(0, 4)) == 0 else []
     if sched_kind == "scripted":
         sch = draw(scripted_schedulers(stations, max_len=sched_max_len))
@@ -780,7 +783,7 @@ def scenarios(
         "sessions": sessions,
         "recomputes": recomputes,
         "event_order": list(draw(st.permutations(range(nev)))),
-        "bulk_add": draw(st.sampled_from([True, False, "mixed", "mixed"])),
+        "bulk_add": bulk_add,
         "mixed_share": draw(st.integers(1, 2)),
         "scheduler": sch,
         "zs": draw(st.lists(st.sampled_from([0.0, 0.3, -0.3, 1.0, -1.0, 3.0, -3.0]), min_size=1, max_size=6)),
